@@ -584,6 +584,7 @@ fn main() {
             // lines: {kind, crit, maxDepth, msl, mss, X: [[int]], y: [int], expect: [...]}
             let lines = read_ndjson(arg(args, 1));
             let mut out = Out::create(arg(args, 2));
+            let mut r = rng(77);
             for l in lines.iter() {
                 let kind: &'static str = if l["kind"] == "cls" { "cls" } else { "reg" };
                 let crit: &'static str = match l["crit"].as_str().unwrap_or("") {
@@ -592,12 +593,18 @@ fn main() {
                     "error" => "error",
                     _ => "mse",
                 };
-                let x: Vec<Vec<f64>> = l["X"].as_array().unwrap().iter()
+                // the model enumerates canonical (sorted) multisets of rows: present them in a
+                // seeded random order
+                let mut perm: Vec<usize> = (0..l["X"].as_array().unwrap().len()).collect();
+                perm.shuffle(&mut r);
+                let x0: Vec<Vec<f64>> = l["X"].as_array().unwrap().iter()
                     .map(|r| r.as_array().unwrap().iter().map(num).collect()).collect();
+                let y0: Vec<f64> = l["y"].as_array().unwrap().iter().map(num).collect();
+                let x: Vec<Vec<f64>> = perm.iter().map(|&i| x0[i].clone()).collect();
                 // class indices are mapped to non-contiguous, partly negative label values by a
                 // monotone map (so that the index order of the sorted class list is unchanged)
-                let y: Vec<f64> = l["y"].as_array().unwrap().iter()
-                    .map(|v| if kind == "cls" { 7.0 * num(v) - 5.0 } else { num(v) }).collect();
+                let y: Vec<f64> = perm.iter().map(|&i| y0[i])
+                    .map(|v| if kind == "cls" { 7.0 * v - 5.0 } else { v }).collect();
                 let q: Vec<Vec<f64>> = vec![x[0].iter().map(|v| v + 0.5).collect(), x[0].iter().map(|v| v - 1.0).collect()];
                 let c = Case {
                     kind, crit,
